@@ -1,5 +1,219 @@
-(* C19 - a trip line is one-way, per line, and publishes what preceded it. *)
+(* C19 - a trip line is one-way, per line, and publishes what preceded it.
+   Statements only; every proof is `exact <lemma>` into Proofs/TripWireProofs.v.
+
+   All theorems quantify over the parameter record P (number of indexed / explicit lines and
+   data, the memory orders of the two atomic sites, interleaving or Views semantics, repaired
+   or pre-repair destructor) unless a hypothesis fixes a field, over any number of threads
+   with any programs over the thirteen operations of Model/TripWireModel.v, and over every
+   schedule; in the Views semantics the schedule's choice also selects which
+   coherence-allowed message each load reads.
+
+   Reading the event-based statements: a step of thread t is
+     nth_error (thr s) t = Some lc  and  tstep P t c (gl s) lc = Some (g', lc', es);
+   `Ev K_LOAD (lobj l) v m` in es is "isTripped on line l read v", `Ev K_STORE (lobj l) v m`
+   is "~TripWireTrigger stored v to line l" - exactly the lines the instrumented build logs. *)
 From Coq Require Import List Arith ZArith Lia Bool.
 Import ListNotations.
 From GV Require Import Sched Events Views TripWireModel TripWireProofs.
 Local Open Scope Z_scope.
+
+(* ---- "Detectors report false until the first trigger attached to their line is destroyed" ---- *)
+(* a load that returns true is preceded by the destruction of a trigger attached to that line
+   ([destroyed] counts exactly the Destroy operations on slots holding that line) *)
+Theorem tw_false_until : forall P progs s t c lc g' lc' es l m,
+  R P progs s -> nth_error (thr s) t = Some lc -> tstep P t c (gl s) lc = Some (g', lc', es) ->
+  In (Ev K_LOAD (lobj l) 1 m) es -> (0 < destroyed (gl s) l)%nat.
+Proof. exact false_until. Qed.
+
+(* ---- one-way: the modification order of a line is  false, then only true ---- *)
+Theorem tw_one_way : forall P progs s l m, R P progs s -> In m (hs (gl s) l) -> mval m = 1.
+Proof. exact one_way. Qed.
+(* ... no step ever stores anything but true (moves, assignments and moved-from objects included) *)
+Theorem tw_only_true_is_stored : forall P t c g lc g' lc' es ob v m,
+  tstep P t c g lc = Some (g', lc', es) -> In (Ev K_STORE ob v m) es -> v = 1.
+Proof. exact store_only_true. Qed.
+
+(* ---- "from then on ... reports true forever" ---- *)
+(* per thread, in both semantics (coherence): a thread that read true from l reads true from l ever after *)
+Theorem tw_monotone : forall P progs s1 t c1 lc1 g1 lc1' es1 l m1 s2 c2 lc2 g2 lc2' es2 v m2,
+  R P progs s1 -> nth_error (thr s1) t = Some lc1 -> tstep P t c1 (gl s1) lc1 = Some (g1, lc1', es1) ->
+  In (Ev K_LOAD (lobj l) 1 m1) es1 ->
+  reachable glob loc (tstep P) (Sys g1 (upd (thr s1) t lc1')) s2 ->
+  nth_error (thr s2) t = Some lc2 -> tstep P t c2 (gl s2) lc2 = Some (g2, lc2', es2) ->
+  In (Ev K_LOAD (lobj l) v m2) es2 -> v = 1.
+Proof. exact monotone. Qed.
+
+(* Views semantics: every load that happens-after a trip store (the store's epoch is in the
+   reader's clock) returns true.  Under C++11 alone a thread with no happens-before relation to
+   the store may still read false for a finite time ([atomics.order]/12): that is a run-time
+   matter, stated here, not hidden. *)
+Theorem tw_hb_true : forall P progs s t c l m,
+  R P progs s -> In m (hs (gl s) l) -> known (clk (gl s) t) m = true -> load_val P t c l (gl s) = 1.
+Proof. exact hb_true. Qed.
+
+(* sequentially consistent instance (the one compared with the code): after the store step every
+   isTripped on that line, by every thread, returns true *)
+Theorem tw_sc_forever : forall P progs s1 t1 c1 lc1 g1 lc1' es1 l v1 m1 s2 t2 c2 lc2 g2 lc2' es2 v m2,
+  views P = false ->
+  R P progs s1 -> nth_error (thr s1) t1 = Some lc1 -> tstep P t1 c1 (gl s1) lc1 = Some (g1, lc1', es1) ->
+  In (Ev K_STORE (lobj l) v1 m1) es1 ->
+  reachable glob loc (tstep P) (Sys g1 (upd (thr s1) t1 lc1')) s2 ->
+  nth_error (thr s2) t2 = Some lc2 -> tstep P t2 c2 (gl s2) lc2 = Some (g2, lc2', es2) ->
+  In (Ev K_LOAD (lobj l) v m2) es2 -> v = 1.
+Proof. exact sc_forever. Qed.
+
+(* ---- "distinct indexed lines are independent" (all lines: declared, indexed, explicit) ---- *)
+(* a step that does not log a store on line l' leaves l' exactly as it was; and what a detector of l'
+   reads is a function of l's history and the reader's own view only *)
+Theorem tw_lines_independent : forall P t c g lc g' lc' es l',
+  tstep P t c g lc = Some (g', lc', es) ->
+  (forall v m, ~ In (Ev K_STORE (lobj l') v m) es) -> hs g' l' = hs g l'.
+Proof. exact lines_independent. Qed.
+Theorem tw_detector_reads_own_line : forall P t c l g g2,
+  hs g2 l = hs g l -> clk g2 t = clk g t -> seen g2 t l = seen g t l -> load_val P t c l g2 = load_val P t c l g.
+Proof. exact load_depends_on_own_line. Qed.
+
+(* ---- "an out-of-range index is rejected with an exception" (state unchanged) ---- *)
+Theorem tw_index_range : forall P t c g lc s i r,
+  at_ lc = Idle -> prog lc = MkTrigI s i :: r -> trg lc s = None -> (nidx P <= i)%nat ->
+  tstep P t c g lc = Some (g, Loc r Idle (trg lc) (det lc), [inv_ev (MkTrigI s i); E K_CATCH 0 0]).
+Proof. exact index_range_trigger. Qed.
+Theorem tw_index_range_detector : forall P t c g lc s i r,
+  at_ lc = Idle -> prog lc = MkDetI s i :: r -> det lc s = None -> (nidx P <= i)%nat ->
+  tstep P t c g lc = Some (g, Loc r Idle (trg lc) (det lc), [inv_ev (MkDetI s i); E K_CATCH 0 0]).
+Proof. exact index_range_detector. Qed.
+
+(* ---- "moving a trigger transfers the duty to trip the line" ---- *)
+(* after move construction / move assignment the source object holds no line, the target holds the
+   source's line, nothing else changes, nothing is stored *)
+Theorem tw_move : forall P t c g lc s d r x,
+  at_ lc = Idle -> prog lc = MoveCtor s d :: r -> trg lc s = Some x -> trg lc d = None -> s <> d ->
+  exists T', tstep P t c g lc = Some (g, Loc r Idle T' (det lc), [inv_ev (MoveCtor s d); ret 0]) /\
+             moved (trg lc) T' s d x.
+Proof. exact move_ctor. Qed.
+Theorem tw_move_assign : forall P t c g lc s d r x y,
+  at_ lc = Idle -> prog lc = MoveAssign s d :: r -> trg lc s = Some x -> trg lc d = Some y -> s <> d ->
+  exists T', tstep P t c g lc = Some (g, Loc r Idle T' (det lc), [inv_ev (MoveAssign s d); ret 0]) /\
+             moved (trg lc) T' s d x.
+Proof. exact move_assign. Qed.
+(* the moved-from object can be destroyed safely and trips nothing: state unchanged, no fault *)
+Theorem tw_moved_from_destroy : forall P t c g lc s r,
+  unfixed P = false -> at_ lc = Idle -> prog lc = Destroy s :: r -> trg lc s = Some None ->
+  tstep P t c g lc = Some (g, Loc r Idle (fupd (trg lc) s None) (det lc), [inv_ev (Destroy s); ret 0]).
+Proof. exact moved_from_destroy. Qed.
+(* the object now holding line l trips l at its destruction: invoke step, then the store step *)
+Theorem tw_attached_destroy : forall P t c g lc s r l,
+  at_ lc = Idle -> prog lc = Destroy s :: r -> trg lc s = Some (Some l) ->
+  tstep P t c g lc = Some (bump_destroyed g l, Loc r (P_store l) (fupd (trg lc) s None) (det lc), [inv_ev (Destroy s)]).
+Proof. exact attached_destroy. Qed.
+Theorem tw_store_step : forall P t c g lc l,
+  at_ lc = P_store l ->
+  tstep P t c g lc = Some (do_store P t l g, goto lc Idle, [EA K_STORE (lobj l) 1 (mo_code (st_mo P)); ret 0]) /\
+  hs (do_store P t l g) l <> [].
+Proof. exact store_step. Qed.
+(* no reachable state of the repaired code has dereferenced a null line *)
+Theorem tw_no_null_deref : forall P progs s, unfixed P = false -> R P progs s -> gnull (gl s) = false.
+Proof. exact no_null_deref. Qed.
+
+(* ---- "everything the triggering thread wrote before destroying the trigger is visible to a
+        thread that has observed the line as tripped" (Views semantics) ---- *)
+(* Discipline (decidable, [wf_pub P p L D progs]): p is the only thread attaching triggers to line L
+   and the only writer of datum D, p does not write D after its first trigger destruction, and every
+   other thread touches D only by "read D if my detector of L reports tripped" (op PollRead).
+   Then, for any release-or-stronger store and acquire-or-stronger load, in particular the source's: *)
+Theorem tw_publishes : forall P p L D, is_rel (st_mo P) = true -> is_acq (ld_mo P) = true ->
+  forall progs s, wf_pub P p L D progs = true -> R P progs s -> grace (gl s) D = false.
+Proof. exact publishes. Qed.
+(* the happens-before fact itself: a reader that observed L tripped and is about to read D has the
+   publisher's last write of D in its vector clock *)
+Theorem tw_publishes_hb : forall P p L D, is_rel (st_mo P) = true -> is_acq (ld_mo P) = true ->
+  forall progs s t, wf_pub P p L D progs = true -> R P progs s -> t <> p -> pcof (thr s) t = P_rbeg D ->
+  hs (gl s) L <> [] /\ (fwhen (cft (cells (gl s) D)) <= clk (gl s) t p)%nat /\
+  (fwhen (cft (cells (gl s) D)) = 0%nat \/ fwho (cft (cells (gl s) D)) = p).
+Proof. exact publishes_hb. Qed.
+(* value read = value written: once L is tripped D is complete and never changes again *)
+Theorem tw_publishes_value : forall P p L D, is_rel (st_mo P) = true -> is_acq (ld_mo P) = true ->
+  forall progs s, wf_pub P p L D progs = true -> R P progs s -> hs (gl s) L <> [] ->
+  cdirty (cells (gl s) D) = false /\
+  forall t c lc g' lc' es, nth_error (thr s) t = Some lc -> tstep P t c (gl s) lc = Some (g', lc', es) ->
+    cval (cells g' D) = cval (cells (gl s) D).
+Proof. exact publishes_stable. Qed.
+(* the source's orders are release / acquire *)
+Theorem tw_source_orders : is_rel tw_store_mo = true /\ is_acq tw_load_mo = true /\
+  mo_code tw_store_mo = MO_RELEASE /\ mo_code tw_load_mo = MO_ACQUIRE.
+Proof. exact (conj eq_refl (conj eq_refl (conj eq_refl eq_refl))). Qed.
+
+(* ---- refutations (witnesses found by computation) ---- *)
+(* with Relaxed on either side a disciplined program has a racy execution *)
+Theorem tw_relaxed_refuted :
+  (exists progs sched, wf_pub (Pviews Relaxed Acquire) 0 pub_line 0 progs = true /\
+                       grace (gl (runT (Pviews Relaxed Acquire) progs sched)) 0 = true) /\
+  (exists progs sched, wf_pub (Pviews Release Relaxed) 0 pub_line 0 progs = true /\
+                       grace (gl (runT (Pviews Release Relaxed) progs sched)) 0 = true).
+Proof. exact relaxed_refuted. Qed.
+(* the destructor as it was before repair 58ffa14 dereferences null on a moved-from trigger *)
+Theorem tw_unfixed_refuted : exists progs sched, gnull (gl (runT Punfixed progs sched)) = true.
+Proof. exact unfixed_refuted. Qed.
+
+(* ---------- non-vacuity and notes ---------- *)
+(* the publication program satisfies the discipline; with the source's orders its reader observes
+   the trip, stands at the read of the datum with the publisher's write in its clock, and reads 7 *)
+Definition Psrc := Pviews tw_store_mo tw_load_mo.
+Example ex_publication :
+  wf_pub Psrc 0 pub_line 0 pub_progs = true /\
+  (let s := runT Psrc pub_progs (firstn 9 pub_sched) in
+   pcof (thr s) 1 = P_rbeg 0 /\ hs (gl s) pub_line <> [] /\ fwho (cft (cells (gl s) 0)) = 0%nat) /\
+  (let s := runT Psrc pub_progs pub_sched in
+   grace (gl s) 0 = false /\ cval (cells (gl s) 0) = 7 /\ forallb fin (thr s) = true).
+Proof. vm_compute. repeat split; discriminate. Qed.
+
+(* a detector reads false before the trip and true after it; the hypotheses of tw_false_until,
+   tw_monotone and tw_sc_forever are met by these steps *)
+Example ex_load_events :
+  let P := mkP false false tw_store_mo tw_load_mo 3 1 0 2 in
+  let progs := [[MkTrigE 0 0; Destroy 0]; [MkDetE 0 0; IsTripped 0; IsTripped 0]] in
+  let s0 := runT P progs [(0,0);(1,0);(1,0)]%nat in
+  let s1 := runT P progs [(0,0);(1,0);(1,0);(1,0);(0,0);(0,0);(1,0)]%nat in
+  (exists lc r, nth_error (thr s0) 1 = Some lc /\ tstep P 1 0 (gl s0) lc = Some r /\
+                In (Ev K_LOAD (lobj 4) 0 MO_ACQUIRE) (snd r)) /\
+  (exists lc r, nth_error (thr s1) 1 = Some lc /\ tstep P 1 0 (gl s1) lc = Some r /\
+                In (Ev K_LOAD (lobj 4) 1 MO_ACQUIRE) (snd r)) /\
+  destroyed (gl s1) 4 = 1%nat.
+Proof.
+  vm_compute. split; [|split; [|reflexivity]]; eexists _, _; (split; [reflexivity|split; [reflexivity|]]); cbn; auto.
+Qed.
+
+(* Views semantics only: after the trip a thread without happens-before may still read false
+   (choice 1 = the initial message), and having read true it cannot go back (choice 1 is then refused) *)
+Example ex_stale_read_then_monotone :
+  let P := mkP false true tw_store_mo tw_load_mo 3 1 0 2 in
+  let progs := [[MkTrigE 0 0; Destroy 0]; [MkDetE 0 0; IsTripped 0; IsTripped 0; IsTripped 0]] in
+  let s := runT P progs [(0,0);(0,0);(0,0);(1,0);(1,0)]%nat in
+  hs (gl s) 4 <> [] /\ load_val P 1 1 4 (gl s) = 0 /\ load_val P 1 0 4 (gl s) = 1 /\
+  (let s' := runT P progs [(0,0);(0,0);(0,0);(1,0);(1,0);(1,0);(1,0)]%nat in load_val P 1 1 4 (gl s') = 1).
+Proof. vm_compute. repeat split; discriminate. Qed.
+
+(* Observation (DESIGN C19), not a finding: tw_publishes is about the store the detector read from.
+   With triggers of two threads on one line each destruction is a plain release store which does not
+   continue the other's release sequence: a detector that reads the LATER store (t1's) acquires only
+   t1's clock, and its read of the datum races with t0's write; reading t0's own store is fine.
+   The program is outside the discipline (t1 attaches a trigger to the published line). *)
+Example tw_two_triggers_note :
+  let progs := [[MkTrigE 0 0; WriteData 0 7; Destroy 0]; [MkTrigE 0 0; Destroy 0]; [MkDetE 0 0; PollRead 0 0]] in
+  let P := mkP false true tw_store_mo tw_load_mo 3 1 1 3 in
+  let pre := [(0,0);(0,0);(0,0);(0,0);(0,0);(0,0); (1,0);(1,0);(1,0); (2,0);(2,0)]%nat in
+  wf_pub P 0 4 0 progs = false /\
+  grace (gl (runT P progs (pre ++ [(2,0);(2,0)]%nat))) 0 = true /\      (* reads the newest message: t1's *)
+  grace (gl (runT P progs (pre ++ [(2,1);(2,0)]%nat))) 0 = false.     (* reads t0's message *)
+Proof. vm_compute. repeat split. Qed.
+
+(* Note on defaulted move assignment: `b = std::move(a)` while b still holds a line just drops b's
+   shared_ptr; b's old line is not tripped, by b or by anyone: here every trigger object has been
+   destroyed, explicit line 0 is tripped, explicit line 1 never is. *)
+Example tw_move_assign_drops_duty :
+  let P := mkP false false tw_store_mo tw_load_mo 3 2 0 1 in
+  let progs := [[MkTrigE 0 0; MkTrigE 1 1; MoveAssign 0 1; Destroy 0; Destroy 1]] in
+  let s := runT P progs [(0,0);(0,0);(0,0);(0,0);(0,0);(0,0)]%nat in
+  forallb fin (thr s) = true /\ hs (gl s) (line_exp P 0) <> [] /\ hs (gl s) (line_exp P 1) = [] /\
+  destroyed (gl s) (line_exp P 1) = 0%nat /\ faulted 0 (gl s) = false.
+Proof. vm_compute. repeat split; discriminate. Qed.
